@@ -543,9 +543,8 @@ func (p *connectedPlayer) getVirtualHostname() string {
 	// 1. Clear virtual host (removes forge separators, TCPShield separators, etc.)
 	// 2. Extract hostname (removes port)
 	// 3. Convert to lowercase for consistent matching
-	virtualHostStr := p.virtualHost.String()
-	cleanedHost := lite.ClearVirtualHost(virtualHostStr)
-	hostname := netutil.HostStr(cleanedHost)
+	// Split off the port first: the host may be bracketed ("[host///1.2.3.4:5///ts]:25565").
+	hostname := lite.ClearVirtualHost(netutil.Host(p.virtualHost))
 
 	return strings.ToLower(hostname)
 }
